@@ -890,28 +890,16 @@ compareNodeSets(
     }
     else if(theRHSType == XObject::eTypeResultTreeFrag)
     {
-        // hmmm... 
-        const double    theRHSNumber = theRHS.num(executionContext);
-
-        if(DoubleSupport::isNaN(theRHSNumber) == false)
-        {
-            // Compare as number...
-            theResult = doCompareNumber(
-                    theLHS.nodeset(),
-                    getNumberFromNodeFunction(executionContext),
-                    theRHS.num(executionContext),
-                    theNumberCompareFunction);
-        }
-        else
-        {
-            // Compare as string...
-            theResult = doCompareString(
-                    theLHS.nodeset(),
-                    getStringFromNodeFunction(executionContext),
-                    theRHS,
-                    theStringCompareFunction,
-                    executionContext);
-        }
+        // A result tree fragment is treated like a node-set that contains
+        // just its root node (XSLT 11.1), so it compares by its string-value,
+        // like a string does: = and != compare strings, the relational
+        // operators (whose string functions convert) compare numbers.
+        theResult = doCompareString(
+                theLHS.nodeset(),
+                getStringFromNodeFunction(executionContext),
+                theRHS,
+                theStringCompareFunction,
+                executionContext);
     }
     else if(theRHSType == XObject::eTypeString)
     {
@@ -1151,6 +1139,28 @@ XObject::notEquals(
 
 
 
+// A result tree fragment is treated like a node-set that contains just its
+// root node (XSLT 11.1).  Compared with a boolean, a node-set is converted to
+// a boolean, not to a number (XPath 3.4).
+inline double
+numberForComparison(
+            const XObject&          theObject,
+            const XObject&          theOther,
+            XPathExecutionContext&  executionContext)
+{
+    if (theObject.getType() == XObject::eTypeResultTreeFrag &&
+        theOther.getType() == XObject::eTypeBoolean)
+    {
+        return theObject.boolean(executionContext) == true ? 1.0 : 0.0;
+    }
+    else
+    {
+        return theObject.num(executionContext);
+    }
+}
+
+
+
 bool
 XObject::lessThan(
             const XObject&          theRHS,
@@ -1173,7 +1183,9 @@ XObject::lessThan(
         }
         else
         {
-            return DoubleSupport::lessThan(num(executionContext), theRHS.num(executionContext));
+            return DoubleSupport::lessThan(
+                        numberForComparison(*this, theRHS, executionContext),
+                        numberForComparison(theRHS, *this, executionContext));
         }
     }
 }
@@ -1202,7 +1214,9 @@ XObject::lessThanOrEquals(
         }
         else
         {
-            return DoubleSupport::lessThanOrEqual(num(executionContext), theRHS.num(executionContext));
+            return DoubleSupport::lessThanOrEqual(
+                        numberForComparison(*this, theRHS, executionContext),
+                        numberForComparison(theRHS, *this, executionContext));
         }
     }
 }
@@ -1231,7 +1245,9 @@ XObject::greaterThan(
         }
         else
         {
-            return DoubleSupport::greaterThan(num(executionContext), theRHS.num(executionContext));
+            return DoubleSupport::greaterThan(
+                        numberForComparison(*this, theRHS, executionContext),
+                        numberForComparison(theRHS, *this, executionContext));
         }
     }
 }
@@ -1260,7 +1276,9 @@ XObject::greaterThanOrEquals(
         }
         else
         {
-            return DoubleSupport::greaterThanOrEqual(num(executionContext), theRHS.num(executionContext));
+            return DoubleSupport::greaterThanOrEqual(
+                        numberForComparison(*this, theRHS, executionContext),
+                        numberForComparison(theRHS, *this, executionContext));
         }
     }
 }
